@@ -265,6 +265,9 @@ func (p Statements) PrettyPrint(ps *PrintState) *PrintState {
 	}
 	ps.IndentLevel++
 	ps.ExpressionPrecedence = LOWEST
+	// The layout of the first statement of this block must not depend on whatever was printed last in a
+	// previous, unrelated block (a trailing comment there made `} else { z` stick to the brace).
+	ps.prev = nil
 	var i int
 	for _, s := range p.Statements {
 		if ps.Compact {
